@@ -1,6 +1,6 @@
 use crate::{
     error::{WriterError, WriterResult},
-    model::{Namespace, TryFromNode, field::resolve_type, node::RustNode},
+    model::{Namespace, TryFromNode, doc::ComponentKind, field::resolve_type, node::RustNode},
 };
 use roxmltree::Node;
 use std::{collections::BTreeMap, rc::Rc};
@@ -38,7 +38,7 @@ impl<'n> TryFromNode<'n> for SoapMessage {
 
                 let (xml_name, namespace) = resolve_type(element, doc);
                 let rust_node = doc
-                    .find_node_by_xml_name(&node, xml_name, namespace.as_deref())
+                    .find_node_by_xml_name(&node, xml_name, namespace.as_deref(), Some(ComponentKind::Element))
                     .ok_or(WriterError::NodeNotFound(xml_name.to_string()))?;
 
                 Ok((part_name, (rust_node.clone(), namespace.clone())))
